@@ -64,7 +64,9 @@ impl<'a> std::fmt::Display for BasicType {
 
 impl<'a> From<&'a str> for BasicType {
     fn from(v: &'a str) -> Self {
-        match v.trim() {
+        // Any amount of whitespace may separate "unsigned" from "int"/"hyper".
+        let v = v.split_whitespace().collect::<Vec<&str>>().join(" ");
+        match v.as_str() {
             "unsigned int" | "uint32_t" | "u32" | "unsigned" => Self::U32,
             "int" | "int32_t" | "i32" => Self::I32,
             "unsigned hyper" | "uint64_t" | "u64" => Self::U64,
@@ -81,7 +83,9 @@ impl<'a> From<&'a str> for BasicType {
 
 impl<'a> From<String> for BasicType {
     fn from(v: String) -> Self {
-        match v.trim() {
+        // Any amount of whitespace may separate "unsigned" from "int"/"hyper".
+        let v = v.split_whitespace().collect::<Vec<&str>>().join(" ");
+        match v.as_str() {
             "unsigned int" | "uint32_t" | "u32" => Self::U32,
             "int" | "int32_t" | "i32" => Self::I32,
             "unsigned hyper" | "uint64_t" | "u64" => Self::U64,
